@@ -286,8 +286,11 @@ structure World where
   now : Int := 0
   /-- `len(c.bootstrapResolvers)` -/
   nboot : Nat := 1
-  /-- `realDomainNegativeCacheTTL` in ns -/
+  /-- `realDomainNegativeCacheTTL` in ns (a tunable of the code, not of the property: the driver
+  takes the running code's value from the `reset` line) -/
   negTtl : Int := 10000000000
+  /-- `minFirefoxCacheTtl` in s (likewise) -/
+  minTtl : Nat := 120
   /-- `dnsCache`: cache key ↦ `OriginalDeadline` -/
   cache : Assoc Int := []
   /-- `dnsKnowledge`: base key ↦ expiresAt -/
@@ -373,16 +376,13 @@ def dnsRestore (w : World) : List (Str × Int) → World
 /-- `DnsController.Close` (store teardown): cache and knowledge are emptied. -/
 def dnsClose (w : World) : World := { w with cache := [], know := [] }
 
-/-- `minFirefoxCacheTtl` -/
-def minFirefoxCacheTtl : Nat := 120
-
 /-- `NormalizeAndCacheDnsResp_(msg, key)`: only a response with a question and rcode NOERROR is
-cached — with the TTL of the first answer, or `minFirefoxCacheTtl` for an EMPTY answer section
+cached — with the TTL of the first answer, or `minFirefoxCacheTtl` (`w.minTtl`) for an EMPTY answer section
 (NODATA counts as a resolution), clamped to one year. -/
 def dnsResp (w : World) (isResponse hasQuestion rcodeOk : Bool) (qname : Str) (qtype : Nat)
     (firstAnswerTtl : Option Nat) (key : Str) : World × Bool :=
   if !isResponse || !hasQuestion || !rcodeOk then (w, false) else
-  let ttl := match firstAnswerTtl with | some t => t | none => minFirefoxCacheTtl
+  let ttl := match firstAnswerTtl with | some t => t | none => w.minTtl
   let ttl := if ttl > 31536000 then 31536000 else ttl
   dnsUpdate w qname qtype ((ttl : Int) * 1000000000) key
 
